@@ -364,6 +364,12 @@ fn source_fmt<T: ironbeam::RFBound + serde::de::DeserializeOwned>(
     }
 }
 
+/// policy index for the case families that do not carry one: 3 of 4 cases get a policy that never
+/// fires on a source-only chain (every saved checkpoint is an fsync), the rest the eager ones
+fn spread_pol(x: u64) -> u64 {
+    [0, 5, 6, 0, 5, 6, 0, 5, 1, 3, 6, 0, 5, 6, 2, 4][(x % 16) as usize]
+}
+
 /// checkpoint settings of a case: directory inside the scratch dir, policy index, auto_recover
 struct Ck {
     dir: PathBuf,
@@ -461,7 +467,7 @@ fn run(kind: &str, input: &Value) -> Value {
                 show,
             );
             // the checkpointing twins of the two engines (a junk line fails them like the plain ones)
-            let ck = Ck { dir: sc.p("ck"), pol: (per % 7) as u64, rec: t % 2 == 0 };
+            let ck = Ck { dir: sc.p("ck"), pol: spread_pol((per + 3 * p) as u64), rec: t % 2 == 0 };
             let with_ck = |e: usize| {
                 path_outcome(
                     || {
@@ -787,7 +793,7 @@ fn run(kind: &str, input: &Value) -> Value {
                     (sh.total_rows, ranges_json(&gr))
                 }
             };
-            let ck = Ck { dir: sc.p("ck"), pol: (n % 7), rec: per % 2 == 0 };
+            let ck = Ck { dir: sc.p("ck"), pol: spread_pol(n + per as u64), rec: per % 2 == 0 };
             let whole = path_outcome(|| whole_fmt::<Tiny>(fmt, &path, true), summary);
             // ONE source handle, the four engines one after the other
             let src = source_fmt::<Tiny>(fmt, &pl, &path, true, per).unwrap();
@@ -987,7 +993,7 @@ fn run(kind: &str, input: &Value) -> Value {
             let (per, order, t, p) = (us(&input[6]), us(&input[7]), us(&input[8]), us(&input[9]));
             let seeds = [input[10].as_u64().unwrap(), input[11].as_u64().unwrap()];
             let path = sc.p(FILE_NAMES[fmt]);
-            let ck = Ck { dir: sc.p("ck"), pol: (order % 7) as u64, rec: per % 2 == 1 };
+            let ck = Ck { dir: sc.p("ck"), pol: spread_pol((order + 4 * per) as u64 + ns[1]), rec: per % 2 == 1 };
             write_fmt(fmt, &path, h, rgs[0], &recs(seeds[0], 0, ns[0]));
             let pl = Pipeline::default();
             // the source is built ONCE, over generation 0
@@ -1410,7 +1416,18 @@ fn generate(seed: u64, tier: Tier, em: &mut Emitter) {
     let rxn: Vec<u64> = if thorough { (0..=20).chain([31, 32, 33, 64, 65]).collect() } else { vec![0, 1, 2, 3, 4, 5, 6, 7, 8, 9, 16, 17, 33] };
     for &n in &rxn {
         for fmt in 0..3u64 {
-            let rgs: Vec<u64> = if fmt == 2 { vec![0, 1, 2, 3, 5] } else { vec![0] };
+            // Parquet reads are slow in a debug build: the quick tier keeps the files small there
+            let rgs: Vec<u64> = if fmt < 2 {
+                vec![0]
+            } else if thorough {
+                vec![0, 1, 2, 3, 5]
+            } else if n <= 6 {
+                vec![0, 1, 2, 3]
+            } else if n <= 17 {
+                vec![*rng.pick(&[2u64, 3, 5])]
+            } else {
+                vec![]
+            };
             for rg in rgs {
                 if rg > n + 1 {
                     continue;
@@ -1428,7 +1445,7 @@ fn generate(seed: u64, tier: Tier, em: &mut Emitter) {
                     }
                     let (t, p) = tp(&mut rng, n);
                     let nt = units >= 2 && per >= 1 && per < units;
-                    let (pol, rec) = (rng.below(7), rng.chance(1, 2));
+                    let (pol, rec) = (spread_pol(rng.below(16)), rng.chance(1, 2));
                     em.case(
                         "rx",
                         json!([fmt, rng.chance(1, 2), n, rg, per, rng.below(1 << 20), t, p, pol, rec]),
@@ -1482,7 +1499,8 @@ fn generate(seed: u64, tier: Tier, em: &mut Emitter) {
                         }
                     })
                     .collect();
-                (*rng.pick(&[ua, rng.below(hi), far]), rs)
+                let other = rng.below(hi);
+                (*rng.pick(&[ua, other, far]), rs)
             }
         };
         if style == 1 && ranges.len() >= 2 {
@@ -1509,7 +1527,7 @@ fn generate(seed: u64, tier: Tier, em: &mut Emitter) {
                 for per in [0u64, 1, 2, 3, n1, n1 + 1] {
                     let rgp: Vec<(u64, u64)> = if fmt == 2 { vec![(0, 0), (1, 1), (2, 2), (1, 2), (2, 1), (0, 1), (3, 1)] } else { vec![(0, 0)] };
                     for (rg1, rg2) in rgp {
-                        if !thorough && rng.chance(if fmt == 2 { 3 } else { 1 }, if fmt == 2 { 4 } else { 3 }) {
+                        if !thorough && (rng.chance(if fmt == 2 { 5 } else { 1 }, if fmt == 2 { 6 } else { 3 }) || (fmt == 2 && n1 > 5)) {
                             continue;
                         }
                         let (t, p) = tp(&mut rng, n1);
